@@ -74,17 +74,17 @@ fn expected_outputs(m : &Result<model::ModelResult, model::GraphError>) -> BTree
 }
 
 /* the recovery build from `disk`; returns its violations and the observation */
-fn recover(case : &Case, rules : &[SRule], disk : &Disk, clock : u64, rsched : SchedSpec, whence : &str, prefix : &str, victim : usize, record : bool, continuation : bool) -> (Vec<Violation>, Option<(Inv, Vec<CrashPoint>)>)
+fn recover(case : &Case, rules : &[SRule], disk : &Disk, clock : u64, rsched : SchedSpec, whence : &str, prefix : &str, victim : usize, record : bool, continuation : bool, goal : Option<String>) -> (Vec<Violation>, Option<(Inv, Vec<CrashPoint>)>)
 {
     let mut vs = vec![];
     let world = World::from_disk(case.knobs.clone(), RULER_DIR, disk.clone(), clock);
     let reader = { let d = disk.clone(); move |p : &str| d.read(p).map(|a| (*a).clone()) };
-    let m = model::evaluate(rules, None, &reader);
+    let m = model::evaluate(rules, goal.as_ref().map(|s| s.as_str()), &reader);
     if record { world.start_crash_recording(); }
-    let res = invoke(&world, true, None, case.rulefile_paths(), rsched);
+    let res = invoke(&world, true, goal.clone(), case.rulefile_paths(), rsched);
     let cps = if record { world.take_crash_points() } else { vec![] };
     let after = world.snapshot().0;
-    let rinv = Inv{ op_index : victim, is_build : true, goal : None, rules : rules.to_vec(), before : disk.clone(), after : after, res : res, model : m };
+    let rinv = Inv{ op_index : victim, is_build : true, goal : goal.clone(), rules : rules.to_vec(), before : disk.clone(), after : after, res : res, model : m };
     let expected_ok = match &rinv.model { Ok(m) => m.all_built() && m.missing_leaves.len() == 0, Err(_) => false };
     if !expected_ok { return (vs, None); }
     match &rinv.res.verdict
@@ -106,7 +106,10 @@ fn recover(case : &Case, rules : &[SRule], disk : &Disk, clock : u64, rsched : S
             if continuation && vs.len() == 0
             {
                 let leaves : Vec<String> = match &rinv.model { Ok(m) => m.leaves.clone(), Err(_) => vec![] };
-                let mut follow : Vec<(&str, bool, Option<(String, Vec<u8>)>)> = vec![("clean", false, None), ("build after clean", true, None)];
+                // ("the next build" may well be a goal-restricted one: then a full build comes next)
+                let mut follow : Vec<(&str, bool, Option<(String, Vec<u8>)>)> = if goal.is_some() { vec![("full build after the goal-restricted one", true, None)] } else { vec![] };
+                follow.push(("clean", false, None));
+                follow.push(("build after clean", true, None));
                 if let Some(l) = leaves.first()
                 {
                     let old = world.read(l).map(|a| (*a).clone()).unwrap_or(vec![]);
@@ -287,8 +290,13 @@ pub fn explore(case : &Case, caps : &Caps, only : Option<(u32, Option<u32>, Opti
         for (ri, rsched) in recoveries.into_iter().enumerate()
         {
             // the continuation is deterministic in the crash state (no PRNG), so replays take it too
-            let continuation = ri == 0 && !want_second && (cp.index as usize + torn.unwrap_or(0) as usize) % 3 == 0;
-            let (v, obs) = recover(case, &rules, &disk, cp.clock + 10, rsched, &whence, "", victim, want_second && ri == 0, continuation);
+            let key = cp.index as usize + torn.unwrap_or(0) as usize;
+            let continuation = ri == 0 && !want_second && key % 3 == 0;
+            // one continuation in two starts with a goal-restricted recovery build
+            let all_targets : Vec<String> = rules.iter().flat_map(|r| r.sorted_targets()).collect();
+            let rgoal = if continuation && key % 2 == 0 && all_targets.len() > 0 { Some(all_targets[(key / 6) % all_targets.len()].clone()) } else { None };
+            if rgoal.is_some() { if let Some(s) = stats.as_deref_mut() { s.inc("c11.goal_restricted_recoveries"); } }
+            let (v, obs) = recover(case, &rules, &disk, cp.clock + 10, rsched, &whence, "", victim, want_second && ri == 0, continuation, rgoal);
             if continuation { if let Some(s) = stats.as_deref_mut() { s.inc("c11.recoveries_followed_by_clean_build_edit_revert"); } }
             if let Some(s) = stats.as_deref_mut()
             {
@@ -356,7 +364,7 @@ pub fn explore(case : &Case, caps : &Caps, only : Option<(u32, Option<u32>, Opti
                             match t2 { Some(n) => format!(", {} bytes of the write applied", n), None => "".to_string() });
                         let mut ex2 = 0u64;
                         let mut vs2 = examine_image(&disk2, &whence2, &base2, &target_paths, &exp2, &rcps[..j], "second-kill:", &mut ex2);
-                        let (v, _) = recover(case, &rules, &disk2, q.clock + 10, SchedSpec::serial(), &whence2, "second-kill:", victim, false, false);
+                        let (v, _) = recover(case, &rules, &disk2, q.clock + 10, SchedSpec::serial(), &whence2, "second-kill:", victim, false, false, None);
                         vs2.extend(v);
                         if let Some(s) = stats.as_deref_mut()
                         {
